@@ -54,8 +54,19 @@ def extra(ctx):
     fns = {s["name"] for s in (k2r.sig or {}).get("subs", [])} | {"sizeof", "fatal", "MEM_STORE0", "get_npc", "STORE_SLOT_CANCELLED", "WRITE_REG", "WRITE_PRED"}
     accepted_with = {}
     n_unsup = n_rejected = 0
+    n_unmapped = n_unmapped_rejected = 0
+    unmapped_accepted = []
     for jid, r in k2r.results.items():
         if "ast" not in r:
+            # the parse tree has a shape the AST reader does not know (a form outside the dialect the model covers, or a grammar
+            # rule that changed its tree shape): such a program must be REJECTED; if the compiler returns code for it, something
+            # the reader cannot even name was accepted (and the model cannot vouch for what became of it)
+            if r.get("stage") not in ("parse", "harness") and "unmapped" in r:
+                n_unmapped += 1
+                if r.get("ok"):
+                    unmapped_accepted.append((jid, r.get("unmapped")))
+                else:
+                    n_unmapped_rejected += 1
             continue
         cs = constructs(r["ast"], fns)
         if not cs:
@@ -67,6 +78,12 @@ def extra(ctx):
                 accepted_with.setdefault(tuple(sorted(new)), allp[int(jid.split(":")[1])])
         else:
             n_rejected += 1
+    ctx["stats"]["programs_outside_the_reader"] = n_unmapped
+    ctx["stats"]["of_those_rejected_by_the_compiler"] = n_unmapped_rejected
+    unmapped_accepted.sort(key=lambda x: len(allp[int(x[0].split(":")[1])]))     # report the shortest such program
+    for jid, why in unmapped_accepted[:1]:
+        code = allp[int(jid.split(":")[1])]
+        ctx["fails"].append((jid, code, ["accepted although its parse tree has a form outside the supported dialect: " + str(why)], {"flags": 0}))
     ctx["stats"]["programs_with_unsupported_construct"] = n_unsup
     ctx["stats"]["of_those_rejected"] = n_rejected
     for cs, code in list(accepted_with.items())[:1]:
